@@ -503,10 +503,7 @@ func c16Copy(c *Check, id string) {
 			e, ok := v.(*ssa.Extract)
 			return ok && e.Tuple == ssa.Value(next) && e.Index == 1
 		})
-		okV := AllOrigins(Arg(s, 1), func(v ssa.Value) bool {
-			e, ok := v.(*ssa.Extract)
-			return ok && e.Tuple == ssa.Value(next) && e.Index == 2
-		})
+		okV := AllOrigins(Arg(s, 1), rangeValueOf(next, fieldLoadFrom(metaF, recv)))
 		rf, base := (*types.Var)(nil), ssa.Value(nil)
 		if u, ok := firstOrigin(Receiver(s)).(*ssa.UnOp); ok {
 			rf, base = FieldOf(u.X)
@@ -528,10 +525,7 @@ func c16Copy(c *Check, id string) {
 			e, ok := v.(*ssa.Extract)
 			return ok && e.Tuple == ssa.Value(next) && e.Index == 1
 		})
-		okV := AllOrigins(mu.Value, func(v ssa.Value) bool {
-			e, ok := v.(*ssa.Extract)
-			return ok && e.Tuple == ssa.Value(next) && e.Index == 2
-		})
+		okV := AllOrigins(mu.Value, rangeValueOf(next, fieldLoadFrom(metaF, recv)))
 		okR := false
 		if u, isU := firstOrigin(mu.Map).(*ssa.UnOp); isU {
 			rf, base := FieldOf(u.X)
@@ -692,12 +686,12 @@ func c16CopyLiteral(c *Check, id string, cp *ssa.Function, T *types.Named) {
 	AllInstrs(cp, func(in ssa.Instruction) {
 		switch x := in.(type) {
 		case *ssa.MapUpdate:
-			if AllOrigins(x.Key, fromNext(1)) && AllOrigins(x.Value, fromNext(2)) && isCopyMap(x.Map) {
+			if AllOrigins(x.Key, fromNext(1)) && AllOrigins(x.Value, rangeValueOf(next, fieldLoadFrom(metaF, recv))) && isCopyMap(x.Map) {
 				nset++
 				c.Report(!ReachWithout(next, next, in), id, "COPY-COVER/metadata", cp, in.Pos(), "metadata[k] = v", "every metadata entry of the source is written, key and value, into the copy's own map")
 			}
 		case *ssa.Call:
-			if IsCallTo(x, nMetaSet) && AllOrigins(Arg(x, 0), fromNext(1)) && AllOrigins(Arg(x, 1), fromNext(2)) && isCopyMap(Receiver(x)) {
+			if IsCallTo(x, nMetaSet) && AllOrigins(Arg(x, 0), fromNext(1)) && AllOrigins(Arg(x, 1), rangeValueOf(next, fieldLoadFrom(metaF, recv))) && isCopyMap(Receiver(x)) {
 				nset++
 				c.Report(!ReachWithout(next, next, in), id, "COPY-COVER/metadata", cp, in.Pos(), "Metadata.Set", "every metadata entry of the source is written, key and value, into the copy's own map")
 			}
@@ -760,6 +754,9 @@ func c16Envelope(c *Check, id string) {
 		tags[name] = true
 	}
 	c.Report(okTags && st.NumFields() >= 4, id, "ENVELOPE-TAGS", wrapFn, wrapFn.Pos(), "envelope fields", "every envelope field is exported and has a distinct JSON name (none is dropped or merged by the codec)")
+	// what the encoder writes the decoder accepts: unwrap fails only when the payload does not decode or has no destination
+	// (shared with C17.O1: an extra filter on the decoded envelope — no payload, no UUID — rejects envelopes wrap produces)
+	c17UnwrapValidates(c, id, unwrapFn)
 	// constructor role: the function that stores into the envelope's fields
 	// the wire form keeps every field, also when it is empty: no json option drops or re-types a field
 	for i := 0; i < st.NumFields(); i++ {
@@ -1233,6 +1230,16 @@ func c16Reply(c *Check, id string) {
 				okP = false
 				break
 			}
+			// … whatever it looks like: every successful return has passed the store (an encoding left out for some results —
+			// "null", an empty object — is an encoding the decoder cannot read back)
+			for _, ret := range Returns(mar) {
+				if RetNil(ret, len(ret.Results)-1) && !Dominates(mar, st, ret) {
+					okP = false
+				}
+			}
+			if !okP {
+				break
+			}
 		}
 		if len(FieldStoresByName(mar, "Payload")) == 0 {
 			// or the message is built with the encoded result right away
@@ -1340,4 +1347,22 @@ func c16Metadata(c *Check, id string) {
 // reflectTag is reflect.StructTag.Get without importing reflect's conventions elsewhere.
 func reflectTag(tag, key string) string {
 	return reflect.StructTag(tag).Get(key)
+}
+
+// rangeValueOf: v is the value of the current entry of the range behind next — the value the range yields, or a plain
+// lookup of the ranged map (isSrc) at the key the range yields.
+func rangeValueOf(next *ssa.Next, isSrc func(ssa.Value) bool) func(ssa.Value) bool {
+	isKey := func(v ssa.Value) bool {
+		e, ok := v.(*ssa.Extract)
+		return ok && e.Tuple == ssa.Value(next) && e.Index == 1
+	}
+	return func(v ssa.Value) bool {
+		if e, ok := v.(*ssa.Extract); ok && e.Tuple == ssa.Value(next) && e.Index == 2 {
+			return true
+		}
+		if l, ok := v.(*ssa.Lookup); ok && !l.CommaOk && isSrc(l.X) && AllOrigins(l.Index, isKey) {
+			return true
+		}
+		return false
+	}
 }
